@@ -148,6 +148,8 @@ def times(draw, kind, n):
     if kind == "linear":
         lo = draw(st.sampled_from([0, -50, 1000, 0.5, 1e6]))
         span = draw(st.sampled_from([1, 10, 100, 1000, 3.7, 1e-3]))
+        if n >= 4 and draw(st.integers(0, 4)) == 0:
+            return [round(lo + i * span / (n - 1), 9) for i in range(n)]
         return [draw(st.one_of(st.integers(0, 10).map(lambda k: lo + k * span / 10), st.floats(0, 1).map(lambda f: round(lo + f * span, 6)))) for _ in range(n)]
     if kind == "date":
         base = tg.parse(draw(tg.instant())).date()
@@ -169,6 +171,9 @@ def times(draw, kind, n):
         return out
     base = tg.parse(draw(tg.instant()))
     span = draw(tg.span_ms(1, int(150 * 365 * 86400e3)))
+    if n >= 4 and draw(st.integers(0, 4)) == 0:
+        # evenly spaced instants (one datum per hour / day / year ...), the commonest real timeline
+        return [tg.iso(tg.from_ms(min(tg.HI_MS, tg.ms(base) + (i * span) // (n - 1)))) for i in range(n)]
     out = []
     for _ in range(n):
         f = draw(st.one_of(st.floats(0, 1), st.sampled_from([0.0, 1.0, 0.5])))
@@ -178,9 +183,11 @@ def times(draw, kind, n):
     return out
 
 
-def labella_opts(L):
+def labella_opts(L, extra=False):
     """engine options sized relative to the axis length L"""
+    more = dict(lineSpacing=st.sampled_from([0, 2, 8, 25])) if extra else {}
     return st.fixed_dictionaries({}, optional=dict(
+        **more,
         maxPos=st.sampled_from([L, L, int(L * 0.6), int(L * 1.5), 150, 300, 800]),
         minPos=st.sampled_from([None, 0, 10, -20]),
         nodeSpacing=st.sampled_from([3, 3, 4, 10, 0, 1, 2.5]),
@@ -201,7 +208,7 @@ def color_form():
 
 
 @st.composite
-def timeline_spec(draw, tier, kinds=("linear", "datetime", "datetime", "date", "time"), max_items=None, min_spacing=None, min_layer_gap=None, allow_modes=False):
+def timeline_spec(draw, tier, kinds=("linear", "datetime", "datetime", "date", "time"), max_items=None, min_spacing=None, min_layer_gap=None, allow_modes=False, extra_engine_opts=False):
     kind = draw(st.sampled_from(kinds))
     nmax = max_items or (40 if tier == "quick" else 120)
     n = draw(st.one_of(st.integers(1, 8), st.integers(1, nmax)))
@@ -234,7 +241,7 @@ def timeline_spec(draw, tier, kinds=("linear", "datetime", "datetime", "date", "
         o["labelPadding"] = {k: draw(st.sampled_from([0, 1, 2, 3, 5, 2.5])) for k in ("left", "right", "top", "bottom")}
     m = o.get("margin", DEFAULT_MARGIN)
     L = (o.get("initialWidth", 400) - m["left"] - m["right"]) if direction in ("up", "down") else (o.get("initialHeight", 400) - m["top"] - m["bottom"])
-    lab = draw(labella_opts(L))
+    lab = draw(labella_opts(L, extra_engine_opts))
     if "maxPos" not in lab and draw(st.integers(0, 9)) < 5:
         lab["maxPos"] = draw(st.sampled_from([L, L, int(L * 0.5)]))
     if min_spacing is not None and lab.get("nodeSpacing", 3) < min_spacing:
@@ -354,14 +361,21 @@ def parse_tex(s):
     try:
         out = {}
         colors = {}
-        for m in re.finditer(r"\\definecolor\{(\w+?)Color([A-Z]+)\}\{HTML\}\{([0-9A-Fa-f]{6})\}", s):
+        problems = out["problems"] = []  # (topic, bucket, message): judged by the property that owns the topic
+        for m in re.finditer(r"\\definecolor\{(\w+?)Color([A-Z]+)\}\{HTML\}\{([^}\n]*)\}", s):
+            if not re.fullmatch(r"[0-9A-F]{6}", m.group(3)):
+                problems.append(("colour", "tex-colour-not-RRGGBB", "\\definecolor{%sColor%s}{HTML}{%s}: xcolor's HTML model needs six upper-case hex digits" % m.groups()))
+                colors[(m.group(1), m.group(2))] = ("malformed", m.group(3))
+                continue
+            if (m.group(1), m.group(2)) in colors:
+                problems.append(("colour", "tex-duplicate-colour-name", "%sColor%s defined twice" % (m.group(1), m.group(2))))
             colors[(m.group(1), m.group(2))] = _hex(m.group(3))
         texts_ = {}
         for line in s.split("\n"):
             m = re.match(r"\\def\\text([A-Z]+)\{(.*)\}$", line, flags=re.S)
             if m:
                 if m.group(1) in texts_:
-                    raise Violation("tex-duplicate-text-macro", "\\text%s defined twice" % m.group(1))
+                    problems.append(("text", "tex-duplicate-text-macro", "\\text%s defined twice" % m.group(1)))
                 texts_[m.group(1)] = m.group(2)
         body = s[s.index("\\begin{tikzpicture}"):]
         sec = re.split(r"^% (shift for the margin|main layer|axis layer|axis|link layer|label layer|dots)$", body, flags=re.M)
@@ -386,7 +400,7 @@ def parse_tex(s):
                 links[i].append(("C", (m.group(2), m.group(3)), (m.group(4), m.group(5)), (m.group(6), m.group(7)), (m.group(8), m.group(9))))
             else:
                 links[i].append(("L", (m.group(2), m.group(3)), (m.group(10), m.group(11))))
-        out["links"] = [((links[i][0][1], links[i]), colors[("link", i)]) for i in order]
+        out["links"] = [((links[i][0][1], links[i]), colors.get(("link", i))) for i in order]
         out["link_ids"] = order
         labs = []
         for m in re.finditer(r"\\begin\{scope\}\[shift=\{\(%s, %s\)\}\]\n\\(fill|draw)\[([^\]]*)\]\n\(0, 0\) rectangle \(%s, %s\) node\[[^\]]*text=labelTextColor([A-Z]+)\] \{\\strut (.*)\};" % (NUM, NUM, NUM, NUM), secs["label layer"]):
@@ -394,11 +408,12 @@ def parse_tex(s):
             bg = re.search(r"labelBgColor([A-Z]+)", opts).group(1)
             bd = re.search(r"borderColor([A-Z]+)", opts)
             if txt != "" and txt[len("\\text"):] not in texts_:
-                raise Violation("tex-undefined-text-macro", "label uses %s, which is not defined" % txt)
-            labs.append(dict(origin=(float(x), float(y)), w=float(w), h=float(h), fill=colors[("labelBg", bg)], border=None if bd is None else colors[("border", bd.group(1))],
-                             text=None if txt == "" else texts_[txt[len("\\text"):]], textcolor=colors[("labelText", i)], id=i, bgid=bg))
+                problems.append(("text", "tex-undefined-text-macro", "label uses %s, which is not defined" % txt))
+                texts_[txt[len("\\text"):]] = ""
+            labs.append(dict(origin=(float(x), float(y)), w=float(w), h=float(h), fill=colors.get(("labelBg", bg)), border=None if bd is None else colors.get(("border", bd.group(1)), "undefined"),
+                             text=None if txt == "" else texts_[txt[len("\\text"):]], textcolor=colors.get(("labelText", i)), id=i, bgid=bg))
         out["labels"] = labs
-        out["dots"] = [((float(x), float(y)), float(sz) / 2, colors[("dot", i)]) for sz, i, x, y in re.findall(r"minimum size=%sbp, \nfill=dotColor([A-Z]+)\] at \(%s, %s\) \{\};" % (NUM, NUM, NUM), secs["dots"])]
+        out["dots"] = [((float(x), float(y)), float(sz) / 2, colors.get(("dot", i))) for sz, i, x, y in re.findall(r"minimum size=%sbp, \nfill=dotColor([A-Z]+)\] at \(%s, %s\) \{\};" % (NUM, NUM, NUM), secs["dots"])]
         out["ncolors"] = len(colors)
         return out
     except (HarnessError, Violation):
@@ -418,6 +433,18 @@ def effective_opts(spec):
     return spec["opts"] if spec.get("options_mode", "dict") == "dict" else {"direction": "right"}
 
 
+def _chains(tl_obj):
+    """per datum: [(root ideal position, position of hop k)] from the axis outward, read from the engine's nodes"""
+    nodes = getattr(tl_obj, "nodes", None)
+    if not nodes:
+        return None
+    out = []
+    for nd in nodes:
+        hops = nd.getPathFromRoot()
+        out.append([(hops[0].idealPos, h.currentPos) for h in hops])
+    return out
+
+
 def check_c07(spec, P, tl_obj, backend, today):
     """returns info used by the C08 oracle; raises Violation"""
     kind = spec["kind"]
@@ -426,6 +453,9 @@ def check_c07(spec, P, tl_obj, backend, today):
     horiz = d in ("up", "down")
     data = spec["data"]
     n = len(data)
+    for topic, bucket, msg in P.get("problems", []):
+        if topic == "text":
+            raise Violation(bucket, msg)
     if not (len(P["dots"]) == len(P["links"]) == len(P["labels"]) == n):
         raise Violation("counts", "%d data but %d dots, %d links, %d boxes" % (n, len(P["dots"]), len(P["links"]), len(P["labels"])))
     iw, ih = inner_dims(o)
@@ -495,6 +525,16 @@ def check_c07(spec, P, tl_obj, backend, today):
                 p1, p2 = (float(l[1][0]), float(l[1][1])), (float(l[2][0]), float(l[2][1]))
                 if abs(a(p1) - a(p2)) > 1e-9 or abs(c(p2) - sgn * ((k + 1) * gap)) > 1e-6:
                     raise Violation("link-stub-segment", "link %d: stub segment %r" % (i, l))
+        # "passes through the datum's stubs layer by layer": the k-th way-point sits at the position the engine gave
+        # the k-th item of this datum's chain (stubs from the axis outward, then the label itself)
+        along = [a((float(segs[2 * k][-1][0]), float(segs[2 * k][-1][1]))) for k in range(K + 1)]
+        chains = _chains(tl_obj)
+        if chains is not None:
+            def fits(ch):
+                return len(ch) == K + 1 and abs(ch[0][0] - a(S)) <= ptol * max(1, abs(a(S))) and all(abs(p - q[1]) <= 1e-6 for p, q in zip(along, ch))
+            if not (i < len(chains) and fits(chains[i])) and not any(fits(ch) for ch in chains):
+                mine = chains[i] if i < len(chains) else None
+                raise Violation("link-misses-stubs", "link %d has way-points at %r along the axis; the datum's chain (root ideal position, item positions) is %r" % (i, along, mine))
         E = (float(prev[0]), float(prev[1]))
         lb = P["labels"][i]
         ox, oy = lb["origin"]
@@ -594,6 +634,8 @@ def check_c08(spec, P, info):
 
 
 def check_c09(S, T, spec):
+    for topic, bucket, msg in T.get("problems", []):
+        raise Violation(bucket, msg)
     for key in ("axis", "main"):
         if S[key] != T[key]:
             raise Violation("c09-" + key, "SVG %r, TikZ %r" % (S[key], T[key]))
